@@ -7,6 +7,7 @@ import DebInspector.Props.C01
 import DebInspector.Props.C02
 import DebInspector.Props.C03
 import DebInspector.Props.C04
+import DebInspector.Props.C15
 
 open Proto
 
@@ -18,6 +19,8 @@ def dispatch (op : String) (v : Val) : Option Val :=
   | "C02" => Props.C02.check.run v
   | "C03" => Props.C03.check.run v
   | "C04" => Props.C04.check.run v
+  | "C15" => Props.C15.check.run v
+  | "C15m" => Props.C15.checkM.run v
   | _ => none
 
 def handle (line : String) : String :=
